@@ -850,6 +850,25 @@ pub fn run_history(m: &'static Module, history: &[Event], opts: &ExecOpts) -> Ru
             }
             continue;
         }
+        if let Op::TryFrom(v) = &ev.op {
+            for f in [m.try_from, m.try_from_trait].into_iter().flatten() {
+                stats.probes += 1;
+                if guarded_plain(|| f(0, *v)).is_err() {
+                    stats.probe_panics += 1;
+                }
+            }
+            if let Some((raw, _)) = take_invalid() {
+                fail!(
+                    "invalid_enum",
+                    None,
+                    step,
+                    op_s,
+                    "a declared variant or None".to_string(),
+                    format!("bit pattern {}", raw)
+                );
+            }
+            continue;
+        }
         if let Op::Probe = &ev.op {
             let ds: Vec<i128> = recent[c].iter().rev().take(2).cloned().collect();
             let ns: Vec<&'static str> = recent_names[c].iter().rev().take(2).cloned().collect();
